@@ -3,6 +3,7 @@
 package sim
 
 import (
+	"context"
 	"fmt"
 	"os"
 	"path/filepath"
@@ -11,9 +12,11 @@ import (
 	"syscall"
 	"time"
 
+	"github.com/criyle/go-sandbox/container"
 	"github.com/criyle/go-sandbox/pkg/forkexec"
 	"github.com/criyle/go-sandbox/pkg/mount"
 	"github.com/criyle/go-sandbox/pkg/rlimit"
+	"github.com/criyle/go-sandbox/runner"
 	"github.com/criyle/go-sandbox/zverif/vcore"
 	"golang.org/x/sys/unix"
 )
@@ -620,5 +623,135 @@ func c07KRun(c *vcore.Ctx) *vcore.Violation {
 		}
 		return vcore.Violate(prop, "child_left", fail, "after the failed Start (%v) the caller has %d more child process(es): %v", err, n-kidsBefore, z)
 	}
+	return nil
+}
+
+// c06ContainerRun: the container clause of C06. The program started by Execve must see exactly the
+// listed descriptors: nothing of the container init (its standard streams - here a pipe of the host
+// on descriptor 2 -, its control socket, the exec or cgroup descriptor) may be open in it, also when
+// fewer than three descriptors are listed.
+var c06Ct *kContainer
+var c06Log *os.File
+
+func c06ContainerRun(c *vcore.Ctx) *vcore.Violation {
+	const prop = "C06"
+	src := c.Src
+	if c06Ct != nil {
+		if err := c06Ct.env.Ping(); err != nil {
+			c06Ct.destroy()
+			c06Ct = nil
+		}
+	}
+	if c06Ct == nil {
+		// the init's stderr is a real stream of the host, as with Builder.Stderr in production
+		pr, pw, err := os.Pipe()
+		if err != nil {
+			vcore.Harnessf("pipe: %v", err)
+		}
+		go func() {
+			buf := make([]byte, 4096)
+			for {
+				if _, err := pr.Read(buf); err != nil {
+					return
+				}
+			}
+		}()
+		ct, err := kBuildContainer(nil, nil, pw)
+		if err != nil {
+			vcore.Harnessf("container build: %v", err)
+		}
+		c06Ct, c06Log = ct, pw
+	}
+	n := 1 + src.Int(5, "nfiles")
+	reportPos := src.Int(n, "reportpos")
+	w, out, err := kPipe()
+	if err != nil {
+		vcore.Harnessf("pipe: %v", err)
+	}
+	var temps []*os.File
+	defer func() {
+		for _, t := range temps {
+			t.Close()
+		}
+	}()
+	want := map[int][2]uint64{}
+	var files []uintptr
+	var desc []string
+	for i := 0; i < n; i++ {
+		if i == reportPos {
+			files = append(files, w.Fd())
+			desc = append(desc, "report")
+			continue
+		}
+		t, err := os.CreateTemp(c.Dir, "c06c")
+		if err != nil {
+			vcore.Harnessf("tempfile: %v", err)
+		}
+		os.Remove(t.Name())
+		temps = append(temps, t)
+		var st syscall.Stat_t
+		syscall.Fstat(int(t.Fd()), &st)
+		want[i] = [2]uint64{st.Dev, st.Ino}
+		files = append(files, t.Fd())
+		desc = append(desc, "file")
+	}
+	p := container.ExecveParam{Args: []string{c06Ct.probe, "out", fmt.Sprint(reportPos), "fds", "24", "exit", "7"}, Env: []string{"A=B"}, Files: files}
+	if src.Bool(1, 2, "sync") {
+		p.SyncFunc = func(int) error { return nil }
+		p.SyncAfterExec = src.Bool(1, 2, "syncafter")
+	}
+	if src.Bool(1, 3, "fexecve") {
+		if f, err := os.Open(probePath); err == nil {
+			defer f.Close()
+			p.ExecFile = f.Fd()
+			desc = append(desc, "(fexecve)")
+		}
+	}
+	c.Logf("container Execve with %d listed descriptors %v, sync=%v after-exec=%v", n, desc, p.SyncFunc != nil, p.SyncAfterExec)
+	c.Event(fmt.Sprintf("container:%d:%v:%v", n, p.SyncFunc != nil, p.ExecFile != 0))
+	c.MarkNonTrivial()
+	var res runner.Result
+	ok := watchdog(60*time.Second, func() { res = c06Ct.env.Execve(context.Background(), p) })
+	w.Close()
+	if !ok {
+		return vcore.Violate(prop, "hang", "container", "Execve did not return")
+	}
+	out.wait(20 * time.Second)
+	if res.Status != runner.StatusNonzeroExitStatus || res.ExitStatus != 7 {
+		return vcore.Violate(prop, "program_did_not_run", "container", "Execve with %d descriptors: %s exit=%d %q", n, statusName(res.Status), res.ExitStatus, res.Error)
+	}
+	seen := 0
+	for _, l := range out.find("fd ") {
+		f := strings.Fields(l)
+		if len(f) < 3 {
+			continue
+		}
+		seen++
+		fd, _ := strconv.Atoi(f[1])
+		closed := f[2] == "closed"
+		switch {
+		case fd >= n:
+			if !closed {
+				return vcore.Violate(prop, "fd_extra", "container/unlisted_descriptor", "Execve listed %d descriptors but descriptor %d is open in the program (%s): something of the container init leaked", n, fd, l)
+			}
+		case fd == reportPos:
+		default:
+			if closed {
+				return vcore.Violate(prop, "fd_missing", "container", "listed descriptor %d is closed in the program", fd)
+			}
+			dev, _ := strconv.ParseUint(f[2], 10, 64)
+			ino, _ := strconv.ParseUint(f[3], 10, 64)
+			if want[fd] != [2]uint64{dev, ino} {
+				return vcore.Violate(prop, "fd_wrong", "container", "descriptor %d is (%d,%d), the caller listed (%d,%d)", fd, dev, ino, want[fd][0], want[fd][1])
+			}
+			if len(f) > 5 && f[5] != "0" {
+				return vcore.Violate(prop, "fd_cloexec", "container", "descriptor %d still has close-on-exec set", fd)
+			}
+		}
+	}
+	if seen != 24 {
+		return vcore.Violate(prop, "program_did_not_run", "container", "the probe reported %d of 24 descriptors", seen)
+	}
+	c.Probe("container_descriptor_table_checked")
 	return nil
 }
